@@ -93,9 +93,9 @@ func (s *Store) Get(ctx storage.Context, tk storage.TKey) ([]byte, error) {
 	if ctx == nil {
 		return nil, fmt.Errorf("nil context")
 	}
-	if ctx.Versioned() {
-		panic("vstore: versioned Get is not modelled here (use the Badger-model harnesses)")
-	}
+	// Versioned contexts: only the context's own version is consulted (exact key, tombstone = absent).  This is
+	// the documented result for a version with no ancestor holding the datum - harnesses using it keep to a
+	// root-only repo; ancestor resolution is the subject of the C01/C05 harnesses.
 	return s.RawGet(ctx.ConstructKey(tk))
 }
 
